@@ -59,6 +59,33 @@ func keysFamily() []interface{} {
 }
 
 func routing(c *seq.Ctx) {
+	// options of one ReMap do not reach the next one: all ordered triples of {default, 2, 3, 211} shards
+	primes := []uint64{0, 2, 3, 211}
+	mkr := func(p uint64) (*remap.ReMap, uint64) {
+		if p == 0 {
+			return remap.NewReMap(), remap.DefaultPrime
+		}
+		return remap.NewReMap(remap.WithPrime(p)), p
+	}
+	for _, a := range primes {
+		for _, b := range primes {
+			for _, d := range primes {
+				bad := ""
+				var ms []*remap.ReMap
+				var ws []uint64
+				for _, x := range []uint64{a, b, d} {
+					m, w := mkr(x)
+					ms, ws = append(ms, m), append(ws, w)
+				}
+				for i, m := range ms {
+					if m.Numbs() != ws[i] || m.SimpleIndex(int(ws[i])+1) != 1%int(ws[i]) {
+						bad = fmt.Sprintf("ReMaps built with shard counts %v (0 = default): number %d reports %d shards and routes %d to %d", []uint64{a, b, d}, i, m.Numbs(), ws[i]+1, m.SimpleIndex(int(ws[i])+1))
+					}
+				}
+				c.Case("options/"+fmt.Sprint(bad == ""), bad, "shard-count option leaks between ReMap instances", func() interface{} { return []uint64{a, b, d} })
+			}
+		}
+	}
 	keys := keysFamily()
 	for _, n := range shardCounts(c.Quick()) {
 		rm := remap.NewReMap(remap.WithPrime(n))
